@@ -3064,10 +3064,8 @@ func (r *stack) implode(start, max int, spat []int) (tpat []int) {
 }
 
 func (r *stack) canPushNester(x any) (can bool) {
-	_, can = stackTypeAliasConverter(x)
-	if !r.positive(nnest) {
-		can = true
-	}
+	_, isStack := stackTypeAliasConverter(x)
+	can = !isStack || !r.positive(nnest)
 	return
 }
 
